@@ -249,6 +249,7 @@ package rtpconn
 //@ -- the closure that serves one NACKed sequence number s
 //@ func gotNACK$1
 //@   safe
+//@   ematch
 //@   props C03 C12
 //@   requires nonnil: track != nil && dtwf(track) && track.remote != nil && track.track != nil
 //@   requires map-wf: !held(track.packetmap.mu) && packetmap.wf(&track.packetmap) && packetmap.contiguous(&track.packetmap)
@@ -308,10 +309,13 @@ package rtpconn
 //@   ensures spec: same(result, c.group)
 //@ func (*webClient).Init
 //@   safe
-//@   props C11 C12
+//@   props C11 C12 C08
 //@   requires nonnil: c != nil
 //@   modifies c.username, c.permissions
-//@   ensures spec: c.username == username && same(c.permissions, perms)
+//@   ensures spec: c.username == username && len(c.permissions) == len(perms) && (forall k int :: 0 <= k && k < len(perms) ==> c.permissions[k] == perms[k])
+//@   -- C08/C11: the client OWNS its permission list (the op/unop/... actions edit it in place): it is never the caller's slice,
+//@   -- which may be a role's entry in the table of roles or the list inside a group description or token
+//@   ensures owned: isnil(c.permissions) || fresh(c.permissions)
 //@ func (*webClient).write
 //@   safe
 //@   props C11 C12 C15
@@ -464,7 +468,7 @@ package rtpconn
 //@   props C11 C12 C15
 //@   requires nonnil: c != nil && cwf(c)
 //@   -- the client loop holds no global lock between messages
-//@   requires token-store-free: !held(token.tokens.mu)
+//@   requires token-store-free: !held(token.tokens.mu) && !held(group.groups.mu)
 //@   requires nonmember: nonmember(c)
 //@   -- the message was decoded from the wire into fresh objects: its username does not live inside the group's chat history
 //@   requires fresh-message: c.group != nil ==> ref(m.Username) != ref(c.group.history)
@@ -517,3 +521,42 @@ package rtpconn
 //@        && arg_m.Type == m$1.Type && arg_m.Kind == m$1.Kind && same(arg_m.Value, m$1.Value)
 //@   -- C15: only broadcast chat is recorded in the history, with the sender's identity
 //@   assert at call AddToChatHistory recorded: m$1.Type == "chat" && m$1.Dest == "" && arg_source == m$1.Source && same(arg_user, m$1.Username)
+//@
+//@ -- ------------------------------------------------------------------ what a subscriber is offered (a per-function piece of C07; C07 itself is not claimed)
+//@ iface conn.UpTrack.Kind
+//@   why conn: the media kind of a track is fixed when the track is created
+//@   pure
+//@   reads none
+//@
+//@ func requestedTracks$1
+//@   safe
+//@   ematch
+//@   props C12
+//@   requires real-tracks: forall k int :: 0 <= k && k < len(tracks) ==> tracks[k] != nil
+//@   modifies nothing
+//@   invariant loop 1 range: -1 <= rangeindex && rangeindex < len(tracks)
+//@   invariant loop 1 none-yet: count == 0 ==> track == nil && (forall k int :: 0 <= k && k <= rangeindex ==> icall("conn.UpTrack.Kind", tracks[k]) != kind)
+//@   invariant loop 1 seen: count > 0 ==> (exists k int :: 0 <= k && k <= rangeindex && track == tracks[k] && tracks[k] != nil && icall("conn.UpTrack.Kind", tracks[k]) == kind
+//@          && (forall j int :: k < j && j <= rangeindex ==> icall("conn.UpTrack.Kind", tracks[j]) != kind))
+//@   invariant loop 1 first-stops: !last ==> count == 0
+//@   invariant loop 1 nonneg: 0 <= count && count <= rangeindex + 1
+//@   -- no track of the kind: nothing
+//@   ensures none: result1 == 0 ==> result0 == nil && (forall k int :: 0 <= k && k < len(tracks) ==> icall("conn.UpTrack.Kind", tracks[k]) != kind)
+//@   -- first mode: the FIRST track of the kind
+//@   ensures first: !last && result1 != 0 ==> result1 == 1 && (exists k int :: 0 <= k && k < len(tracks) && result0 == tracks[k] && icall("conn.UpTrack.Kind", tracks[k]) == kind
+//@          && (forall j int :: 0 <= j && j < k ==> icall("conn.UpTrack.Kind", tracks[j]) != kind))
+//@   -- last mode: the LAST track of the kind
+//@   ensures lastone: last && result1 != 0 ==> (exists k int :: 0 <= k && k < len(tracks) && result0 == tracks[k] && icall("conn.UpTrack.Kind", tracks[k]) == kind
+//@          && (forall j int :: k < j && j < len(tracks) ==> icall("conn.UpTrack.Kind", tracks[j]) != kind))
+//@   ensures nonneg: result1 >= 0
+//@
+//@ func requestedTracks
+//@   safe
+//@   ematch
+//@   props C12
+//@   requires real-tracks: forall k int :: 0 <= k && k < len(tracks) ==> tracks[k] != nil
+//@   modifies nothing
+//@   invariant loop 1 range: -1 <= rangeindex && rangeindex < len(requested)
+//@   -- nothing requested, nothing offered; at most one audio and one video track are offered
+//@   ensures nothing: len(requested) == 0 ==> isnil(result0) && !result1
+//@   ensures size: len(result0) <= 2
